@@ -59,8 +59,11 @@ void iobuffer::export_buffer(FILE *fout, bool ispadding)
 {
   if (isfinal)
   {
-    u8_t padding = ispadding ? 0 : b[now - 1][15];
-    fwrite(b, 1, (now << 4) - padding, fout);
+    // the pad length comes from decrypted data: an authentic file made by other means can carry any value here,
+    // or no block at all
+    u32_t size = now << 4;
+    u8_t padding = (ispadding || now == 0) ? 0 : b[now - 1][15];
+    fwrite(b, 1, padding > size ? 0 : size - padding, fout);
   }
   else
     fwrite(b, 1, sum, fout);
